@@ -2952,6 +2952,11 @@ fn main() {
                     let stride = (enc.len() as u64 / 40).max(1);
                     tb["stride"] = json!(stride);
                     plan.push("main", 0, enc.len() as u64 / stride, tb);
+                    if t == "zkir_bin" {
+                        // length bytes of the bincode program reach an unbounded allocation (a
+                        // finding of the main stage) that would kill an in-process sanitizer run
+                        continue;
+                    }
                     let pos: Vec<usize> = byte_positions(&corpus, t, f, *s, false).into_iter().take(24).collect();
                     let mut bb = b(t, f, *s, "byte");
                     bb["vals"] = json!([0, 1, 5, 31, 32, 127, 128, 255]);
